@@ -4,6 +4,8 @@ pyro_app(environ, start_response) is called as a function against a real name se
 logging objects. A traffic counter (wrappers on SocketConnection.send / create_socket installed from the harness) counts
 every Pyro message / connection made by the thread executing pyro_app. Authorisation is computed from the statement."""
 import io
+import socket
+import struct
 import json
 import re
 import threading
@@ -21,7 +23,7 @@ RULE = ("requests = method {GET,POST,OPTIONS,PUT,DELETE,HEAD} x path (0-4 segmen
 ASSUMPTIONS = ["the cached name-server proxy of the gateway module is seeded with a proxy to the harness' own name server (no DNS/broadcast lookup)",
                "header-wrong + parameter-right may be refused (the safe direction is not flagged)", "a repeated $key parameter is judged only on 'no Pyro traffic'",
                "blank query values are not generated (parse_qs drops them by documented default)"]
-REQUIRED_REACH = ["unauthorised_refused", "forwarded_ok", "meta_ok", "errors_500_ok", "oneway_ok", "non_call_requests", "pattern_mismatch_refused", "key_missing_refused"]
+REQUIRED_REACH = ["unauthorised_refused", "forwarded_ok", "meta_ok", "errors_500_ok", "oneway_ok", "non_call_requests", "pattern_mismatch_refused", "key_missing_refused", "lost_reply_once_ok"]
 SHARD_TIMEOUT = {"quick": 240, "thorough": 3000}
 KEY = "s3cret"
 OBJ_NAMES = ["http.calc", "http.calc2", "http.other", "Http.calc", "xhttp.calc", "other.obj", "http.", "http.a/b"]
@@ -63,6 +65,14 @@ def make_target(P, tlog, name):
         def nothing(self):
             tlog.add(name, "nothing", {})
             return None
+
+        def drop(self, **kwargs):
+            """the call runs, then the connection to the gateway is lost before the reply (fault path: daemon crash / abortive close)"""
+            tlog.add(name, "drop", dict(kwargs))
+            sock = P.callcontext.current_context.client.sock
+            sock.setsockopt(socket.SOL_SOCKET, socket.SO_LINGER, struct.pack("ii", 1, 0))
+            sock.close()
+            return "never delivered"
 
         @property
         def status(self):
@@ -144,7 +154,7 @@ def gen_request(r):
     method = r.choice(["GET"] * 12 + ["POST"] * 4 + ["OPTIONS", "PUT", "DELETE", "HEAD"])
     k = r.random()
     obj = r.choice(OBJ_NAMES + ["http.calc"] * 8 + ["http.calc2", "http.other", "http.cal", "http.calcx", "HTTP.CALC", "ttp.calc", "nosuch.obj", "http.nosuch"])
-    member = r.choice(["add", "record", "record", "fail", "fire", "nothing", "status", "$meta", "nosuch", "_private", "__class__"])
+    member = r.choice(["add", "record", "record", "fail", "fire", "nothing", "status", "$meta", "nosuch", "_private", "__class__", "drop"])
     if k < 0.06:
         path = r.choice(["", "/", "/pyro", "/pyro/", "/other", "/pyro/" + obj, "/pyro//", "/pyrox/" + obj + "/" + member, "pyro/" + obj + "/" + member])
     elif k < 0.12:
@@ -269,7 +279,7 @@ def judge(envx, cfg, env, info, status, body, crashed, traffic, rec, pay):
             return
         rec.count("errors_500_ok")
         return
-    served = {"add", "record", "fail", "fire", "nothing", "status"}
+    served = {"add", "record", "fail", "fire", "nothing", "status", "drop"}
     if member not in served:
         if calls or code != 500:
             rec.violation("unknown-member-not-500", "member %r of %s answered %r, invocations %r" % (member, obj, status, calls), pay)
@@ -299,9 +309,16 @@ def judge(envx, cfg, env, info, status, body, crashed, traffic, rec, pay):
             return
         rec.count("errors_500_ok")
         return
-    exp_call = (obj, member, {"a": want_params.get("a", ""), "b": want_params.get("b", "")} if member == "add" else want_params if member in ("record", "fail", "fire") else {})
+    exp_call = (obj, member, {"a": want_params.get("a", ""), "b": want_params.get("b", "")} if member == "add" else want_params if member in ("record", "fail", "fire", "drop") else {})
     if len(calls) != 1 or calls[0][0] != exp_call[0] or calls[0][1] != exp_call[1] or calls[0][2] != exp_call[2]:
         rec.violation("forwarded-call-differs", "%s %r?%s -> expected exactly one invocation %r, target saw %r (status %r)" % (method, env["PATH_INFO"], env["QUERY_STRING"], exp_call, calls, status), pay)
+        return
+    if member == "drop":
+        # exactly one invocation was established above; without a reply the request is answered 500 (or, as a oneway call, 200)
+        if code != 500 and not (is_oneway and code == 200):
+            rec.violation("lost-reply-not-500", "the connection to the object was lost before the reply; the gateway answered %r" % (status,), pay)
+            return
+        rec.count("lost_reply_once_ok")
         return
     if is_oneway:
         if code != 200 or body not in (b"",):
